@@ -487,6 +487,8 @@ func callOnce(job *Job, reg *Reg, fp *FuncPlan, fn reflect.Value, val string, se
 			continue
 		}
 		switch it.Kind {
+		case "ignore":
+			e.unknown = true
 		case "assign", "slice":
 			v, err := reg.Eval(it.RHS, roots, leafT)
 			if err != nil {
